@@ -317,6 +317,23 @@ func opCreateConsumer(w *World) *Op {
 				op.Specs = append(op.Specs, TxSpec{Signer: v.Oper, Msgs: []sdk.Msg{MsgOptIn(v, id, nil)}, Tag: "opt-in"})
 			}
 		}
+		// sometimes the owner updates the consumer it has just created, in the same block (before any BeginBlock can launch it)
+		if w.Rnd.Intn(3) == 0 {
+			upd := &providertypes.MsgUpdateConsumer{Owner: owner.Addr.String(), ConsumerId: id}
+			switch w.Rnd.Intn(3) {
+			case 0:
+				md := Metadata("same-block")
+				upd.Metadata = &md
+			case 1:
+				sp, _ := w.randSpawn()
+				upd.InitializationParameters = DefaultInitParams(sp, w.Cfg.ConsumerUnbonding)
+			default:
+				upd.PowerShapingParameters = w.randPowerShaping()
+			}
+			if ip != nil || upd.InitializationParameters == nil {
+				op.Specs = append(op.Specs, TxSpec{Signer: owner, Msgs: []sdk.Msg{upd}, Tag: "update-consumer:same-block"})
+			}
+		}
 	}
 	w.createsThisStep++
 	return op
